@@ -134,3 +134,21 @@ package federation
 //@   at send#4: assert ferr == nil
 //@   # wherever it is sent from, a nil report means the last backend call succeeded
 //@   at send#*: assert $v == nil ==> ferr == nil
+
+// The merge callback of the generated List methods (template instance:
+// CollectionList): a backend error is passed on (so the worker fails the whole
+// request); otherwise every item of the page is merged and the UUIDs reported
+// to the worker - which strikes them from its to-do set - are exactly the
+// UUIDs of that page, in order.
+//@ iface API.CollectionList
+//@   modifies nothing
+//@ func Conn.generated_CollectionList$1 property C20 safety -bounds
+//@   ghost berr error = nil
+//@   ghost m0 int = 0
+//@   calls API.CollectionList#1: requires $recv == backend && $1.ForwardedFor == conn.cluster.ClusterID + "-" + old(options.ForwardedFor)
+//@   calls API.CollectionList#1: set berr = $r1
+//@   calls API.CollectionList#1: set m0 = len(merged.Items)
+//@   ensures berr != nil ==> result1 == berr && len(result0) == 0
+//@   ensures berr == nil ==> result1 == nil && len(result0) == len(cl.Items) && (forall k int :: 0 <= k && k < len(cl.Items) ==> result0[k] == cl.Items[k].UUID)
+//@   ensures berr == nil ==> len(merged.Items) == ite(m0 == 0, len(cl.Items), m0 + len(cl.Items))
+//@   loop 1: invariant len(uuids) == $i && (forall k int :: 0 <= k && k < $i ==> uuids[k] == cl.Items[k].UUID) && berr == nil && len(merged.Items) == ite(m0 == 0, len(cl.Items), m0 + len(cl.Items))
